@@ -1,7 +1,13 @@
-import Spine.DiscoveryCascade
+import Spine.DiscoveryGuard
 /-! Line-protocol driver of the C06 model family (`Spine.Disc.World`).
-    args: `whole=0|1` (notification entries handled over the whole message, as written = 1)
-          `bindent=0|1` (entity removal drops bindings by entity address only, as written = 1)
+    args (1 = the pinned commit a1767d0, 0 = the repair):
+          `whole=0|1`   notification entries handled over the whole message (437adab)
+          `bindent=0|1` entity removal drops bindings by entity address only (d78a414)
+          `rmdev=0|1`   a removed entry about [0] removes the device-information entity (711ee79)
+          `refresh=0|1` a re-announcement of [0] without feature 0 replaces its features (6fceef1)
+          With `whole=1` the message must be well formed and leave [0] alone (the pinned code panics / wedges there: C05).
+    Absent parts are written `-`: empty entity address, missing entityType, missing parts of a feature description
+    (`-:-:-:-:-:-` = element without description), missing function of a supportedFunction entry (`-=3`).
     ops:  reset
           msg P reply|partial|full ENT* | FEAT*      ENT = addr:typ:chg:desc   FEAT = ent:id:typ:role:desc:fns
           sub|bind P cEnt cFeat sEnt sFeat            (a request the real code granted)
@@ -9,32 +15,38 @@ import Spine.DiscoveryCascade
     answer: `T tree | E events | S subs | B binds | CS csubs | CB cbinds`; unknown op: `bad-op`. -/
 open Spine.Disc
 
-def parseAddr (s : String) : List Nat := (s.splitOn ".").map String.toNat!
+def parseAddr (s : String) : List Nat := (s.splitOn ".").map fun x => (x.toNat?).getD 0
 
-def parseOptNat (s : String) : Option Nat := if s = "-" then none else some s.toNat!
+def okNat (s : String) : Bool := s = "-" || s.toNat?.isSome
+def okAddr (s : String) : Bool := s = "-" || (s.splitOn ".").all fun x => x.toNat?.isSome
 
-def parseEI (s : String) : Option EI :=
+def parseOptNat (s : String) : Option Nat := if s = "-" then none else s.toNat?
+
+def parseAddrOpt (s : String) : List Nat := if s = "-" then [] else parseAddr s
+
+def parseEW (s : String) : Option EW :=
   match s.splitOn ":" with
   | [a, t, c, d] =>
-    -- a removed entry may omit the entity type (`-`); the model never reads it
-    let ty := (parseOptNat t).getD 0
-    if c = "a" then some ⟨parseAddr a, ty, .added, parseOptNat d⟩
-    else if c = "r" then some ⟨parseAddr a, ty, .removed, parseOptNat d⟩
-    else if c = "n" then some ⟨parseAddr a, ty, .none, parseOptNat d⟩
+    if !(okAddr a && okNat t && okNat d) then none else
+    if c = "a" then some ⟨parseAddrOpt a, parseOptNat t, .added, parseOptNat d⟩
+    else if c = "r" then some ⟨parseAddrOpt a, parseOptNat t, .removed, parseOptNat d⟩
+    else if c = "n" then some ⟨parseAddrOpt a, parseOptNat t, .none, parseOptNat d⟩
     else none
   | _ => none
 
-def parseFn (s : String) : Option (Nat × Option Nat) :=
+def parseFn (s : String) : Option (Option Nat × Option Nat) :=
   match s.splitOn "=" with
-  | [f, b] => some (f.toNat!, if b = "x" then none else some b.toNat!)
+  | [f, b] => if okNat f && (b = "x" || b.toNat?.isSome) then some (parseOptNat f, if b = "x" then none else b.toNat?) else none
   | _ => none
 
-def parseFI (s : String) : Option FI :=
+def parseFW (s : String) : Option FW :=
   match s.splitOn ":" with
   | [e, i, t, r, d, fns] =>
+    if !(okAddr e && okNat i && okNat t && okNat r && okNat d) then none else
     let l := if fns = "-" then [] else (fns.splitOn ",").map parseFn
     if l.any (·.isNone) then none
-    else some ⟨parseAddr e, i.toNat!, t.toNat!, r.toNat!, parseOptNat d, l.filterMap id⟩
+    else some ⟨if e = "-" then none else some (parseAddr e), parseOptNat i, parseOptNat t, parseOptNat r, parseOptNat d,
+      l.filterMap id⟩
   | _ => none
 
 def showAddr (a : List Nat) : String := ".".intercalate (a.map toString)
@@ -72,17 +84,22 @@ def world0 : World := { trees := fun _ => tree0 }
 def answer (c : Cfg) (w : World) (ws : List String) : World × String :=
   match ws with
   | "msg" :: p :: kind :: rest =>
-    let ents := (rest.takeWhile (· ≠ "|")).map parseEI
-    let feats := ((rest.dropWhile (· ≠ "|")).drop 1).map parseFI
+    let ents := (rest.takeWhile (· ≠ "|")).map parseEW
+    let feats := ((rest.dropWhile (· ≠ "|")).drop 1).map parseFW
     let k : Option Kind := if kind = "reply" then some .reply else if kind = "partial" then some .part
       else if kind = "full" then some .full else none
+    if kind = "replyx" then
+      -- a reply without deviceInformation is rejected as a whole (repaired tree; the pinned commit panics: C05)
+      let p := p.toNat!
+      (w, s!"T {showTree (w.trees p)} | E . | " ++ showReg w)
+    else
     match k with
     | none => (w, "bad-op")
     | some k =>
       if ents.any (·.isNone) || feats.any (·.isNone) || !rest.contains "|" then (w, "bad-op") else
-      let m := Msg.ofWire ⟨ents.filterMap id, feats.filterMap id⟩
+      let m := MsgG.ofWire ⟨ents.filterMap id, feats.filterMap id⟩
       let p := p.toNat!
-      let (w', evs) := w.step c p k m
+      let (w', evs) := w.stepG c p k m
       (w', s!"T {showTree (w'.trees p)} | E {showEvts evs} | " ++ showReg w')
   | [op, p, a, b, c', d] =>
     let p := p.toNat!
@@ -119,6 +136,10 @@ def parseArgs : List String → Option Cfg
       else if a = "whole=0" then some { c with wholeMessage := false }
       else if a = "bindent=1" then some { c with bindEntityOnly := true }
       else if a = "bindent=0" then some { c with bindEntityOnly := false }
+      else if a = "rmdev=1" then some { c with removesDevInfo := true }
+      else if a = "rmdev=0" then some { c with removesDevInfo := false }
+      else if a = "refresh=1" then some { c with refreshUnguarded := true }
+      else if a = "refresh=0" then some { c with refreshUnguarded := false }
       else none
 
 def main (args : List String) : IO UInt32 := do
